@@ -141,6 +141,11 @@ type SentFrame struct {
 	Raw    Hex    `json:"raw,omitempty"`  // escaped bytes on the wire (omitted from samples when long)
 	Xfer   int    `json:"xfer,omitempty"` // transfer index+1 for sub-packages
 	Gap    int64  `json:"gap,omitempty"`  // idle time before this frame (ns)
+	// attachment stream units
+	File  int    `json:"file,omitempty"`  // file index+1 this unit belongs to (0x1211, 0x1212, chunks)
+	Off   int    `json:"off,omitempty"`   // chunk: offset
+	Chunk bool   `json:"chunk,omitempty"` // a raw file-data unit (not a JT808 frame)
+	Name  string `json:"name,omitempty"`
 }
 
 // Transfer is one sub-packaged message.
